@@ -6,7 +6,8 @@
     pat.compile <time|date|offset> <patternHex> <culture> → ok <shape> | !invalidPattern
     pat.fmt <type> <patternHex> <culture> <value fields…>  → textHex | !dom | !<err>
     pat.parse <type> <patternHex> <culture> <textHex>       → ok fields… | fail | !dom | !<err>
-    pat.delim <type> <patternHex> <culture> → 1 | 0 (the theorem's `Delimited` criterion on the compiled steps) | - (not stepped)
+    pat.delim <type> <patternHex> <culture> → 1 | 0 (the theorem's `Delimited` criterion on the compiled steps) | 3 | 2
+       (`DelimitedSegs` holds / fails for a pattern with embedded parts) | - (neither)
     pat.wf <type> <patternHex> <culture> → 1 | 0 (`dtStepWF` on all steps and `fieldsSound`) | 2 | 0 (`segWF` of a pattern with
        embedded parts) | - (neither; or the culture fails `monthHeadsEmpty`)
     cu.names <culture> → <9 bits: monthNamesOK 3g 3p 4g 4p, dayNamesOK 3 4, amPmOK 1 2, eraOK> <hex of the U+001F-joined
@@ -211,6 +212,7 @@ def handlePat (toks : List String) : Option String :=
       some (match compileTok tok ty cu p with
         | .error e => "!" ++ e.name
         | .ok (.stepped c) => if Delimited c.cu c.used true c.steps then "1" else "0"
+        | .ok (.segmented cu' used segs) => if DelimitedSegs cu' used true segs then "3" else "2"
         | .ok _ => "-")
   | ["pat.wf", tok, p, cu] => do
       let ty ← decodeType tok; let p ← decodeText' p; let cu ← decodeCulture cu
